@@ -1,1 +1,186 @@
-def main : IO Unit := IO.println "driver"
+import PyFatModel.PyInt
+import PyFatModel.Gen.Consts
+import PyFatModel.Gen.Arith
+import PyFatModel.Model.Hex
+import PyFatModel.Model.DosTime
+import PyFatModel.Model.FatTable
+import PyFatModel.Model.Sfn
+import PyFatModel.Model.Layout
+
+open Model Model.Hex
+
+structure DState where
+  cps : List (String × Sfn.CodePage) := []
+
+def layoutByName (n : String) : Option (List Gen.Field × Nat) :=
+  match n with
+  | "bpb" => some (Gen.bpbLayout, Gen.bpbLayoutSize)
+  | "bpb12" => some (Gen.bpb12Layout, Gen.bpb12LayoutSize)
+  | "bpb32" => some (Gen.bpb32Layout, Gen.bpb32LayoutSize)
+  | "dir" => some (Gen.dirLayout, Gen.dirLayoutSize)
+  | "lfn" => some (Gen.lfnLayout, Gen.lfnLayoutSize)
+  | "fsinfo" => some (Gen.fsinfoLayout, Gen.fsinfoLayoutSize)
+  | _ => none
+
+def showVal : Layout.Val → String
+  | .int n => toString n
+  | .bytes b => "x" ++ toHex b
+
+def pyintOp (op : String) (a b : Int) : Option Int :=
+  match op with
+  | "and" => some (Py.land a b)
+  | "or" => some (Py.lor a b)
+  | "shl" => if b < 0 then none else some (Py.shl a b)
+  | "shr" => if b < 0 then none else some (Py.shr a b)
+  | "fdiv" => if b = 0 then none else some (Py.fdiv a b)
+  | "fmod" => if b = 0 then none else some (Py.fmod a b)
+  | "not" => some (Py.lnot a)
+  | "ceildiv" => if b ≤ 0 then none else some (Py.ceilDiv a b)
+  | _ => none
+
+def codec (st : DState) (args : List String) : DState × String :=
+  match args with
+  | ["date_dec", w] =>
+    match w.toNat? with
+    | some w => let (y, m, d) := DosTime.decodeDate w; (st, s!"ok {y} {m} {d}")
+    | none => (st, "bad-op")
+  | ["time_dec", w] =>
+    match w.toNat? with
+    | some w => let (h, mi, s) := DosTime.decodeTime w; (st, s!"ok {h} {mi} {s}")
+    | none => (st, "bad-op")
+  | ["date_fields", w] =>
+    match w.toInt? with
+    | some w => (st, s!"ok {Gen.Arith.deserialize_date_year w} {Gen.Arith.deserialize_date_month w} {Gen.Arith.deserialize_date_day w}")
+    | none => (st, "bad-op")
+  | ["time_fields", w] =>
+    match w.toInt? with
+    | some w => (st, s!"ok {Gen.Arith.deserialize_time_hour w} {Gen.Arith.deserialize_time_minute w} {Gen.Arith.deserialize_time_second w}")
+    | none => (st, "bad-op")
+  | ["date_enc", y, m, d] =>
+    match y.toInt?, m.toInt?, d.toInt? with
+    | some y, some m, some d => (st, s!"ok {Gen.Arith.serialize_date y m d} {DosTime.encodeDate y m d}")
+    | _, _, _ => (st, "bad-op")
+  | ["time_enc", h, mi, s] =>
+    match h.toNat?, mi.toNat?, s.toNat? with
+    | some h, some mi, some s => (st, s!"ok {Gen.Arith.serialize_time h mi s} {DosTime.encodeTime h mi s}")
+    | _, _, _ => (st, "bad-op")
+  | ["fat12_parse", hx] =>
+    match parseHex hx with
+    | some bs => match FatTable.parse12 bs with
+      | .ok es => (st, "ok " ++ showNatList es)
+      | .error _ => (st, "err AssertionError")
+    | none => (st, "bad-op")
+  | ["fat16_parse", hx] =>
+    match parseHex hx with
+    | some bs => (st, "ok " ++ showNatList (FatTable.parse16 bs))
+    | none => (st, "bad-op")
+  | ["fat32_parse", hx] =>
+    match parseHex hx with
+    | some bs => (st, "ok " ++ showNatList (FatTable.parse32 bs))
+    | none => (st, "bad-op")
+  | ["fat12_ser", es] =>
+    match parseNatList es with
+    | some es => (st, "ok " ++ toHex (FatTable.ser12 es))
+    | none => (st, "bad-op")
+  | ["fat16_ser", es] =>
+    match parseNatList es with
+    | some es => (st, "ok " ++ toHex (FatTable.ser16 es))
+    | none => (st, "bad-op")
+  | ["fat32_ser", es] =>
+    match parseNatList es with
+    | some es => (st, "ok " ++ toHex (FatTable.ser32 es))
+    | none => (st, "bad-op")
+  | ["fat12_flush", hx] =>
+    match parseHex hx with
+    | some bs => match FatTable.parse12 bs with
+      | .ok es => (st, "ok " ++ toHex (FatTable.flushed (FatTable.ser12 es) bs))
+      | .error _ => (st, "err AssertionError")
+    | none => (st, "bad-op")
+  | ["fat16_flush", hx] =>
+    match parseHex hx with
+    | some bs => (st, "ok " ++ toHex (FatTable.flushed (FatTable.ser16 (FatTable.parse16 bs)) bs))
+    | none => (st, "bad-op")
+  | ["fat32_flush", hx] =>
+    match parseHex hx with
+    | some bs => (st, "ok " ++ toHex (FatTable.ser32r (FatTable.parse32 bs) (FatTable.parse32Reserved bs)))
+    | none => (st, "bad-op")
+  | ["fat_spec", ty, hx, k] =>
+    match parseHex hx, k.toNat? with
+    | some bs, some k =>
+      let v := if ty == "12" then FatTable.entry12 bs k else if ty == "16" then FatTable.entry16 bs k
+               else FatTable.entry32 bs k
+      (st, s!"ok {v}")
+    | _, _ => (st, "bad-op")
+  | ["checksum", hx] =>
+    match parseHex hx with
+    | some bs => (st, s!"ok {Gen.Arith.checksum (bs.map Int.ofNat)} {Sfn.checksum bs}")
+    | none => (st, "bad-op")
+  | ["getcluster", lo, hi] =>
+    match lo.toInt?, hi.toInt? with
+    | some lo, some hi => (st, s!"ok {Gen.Arith.get_cluster lo hi}")
+    | _, _ => (st, "bad-op")
+  | ["setcluster", c] =>
+    match c.toInt? with
+    | some c => (st, s!"ok {Gen.Arith.set_cluster_fstcluslo c} {Gen.Arith.set_cluster_fstclushi c}")
+    | none => (st, "bad-op")
+  | ["pyint", op, a, b] =>
+    match a.toInt?, b.toInt? with
+    | some a, some b => match pyintOp op a b with
+      | some r => (st, s!"ok {r}")
+      | none => (st, "err ValueError")
+    | _, _ => (st, "bad-op")
+  | ["sfn_classify", hx] =>
+    match parseHex hx with
+    | some bs => match Sfn.classify bs with
+      | .free => (st, "ok free")
+      | .last => (st, "ok last")
+      | .name _ => (st, "ok name")
+    | none => (st, "bad-op")
+  | ["sfn_str", cp, hx] =>
+    match parseHex hx, st.cps.lookup cp with
+    | some bs, some cpv =>
+      let stored := Sfn.strMutate bs
+      (st, "ok " ++ showNatList (Sfn.unpad cpv stored) ++ " " ++ toHex stored)
+    | _, _ => (st, "bad-op")
+  | ["sfn_store", hx] =>
+    match parseHex hx with
+    | some bs => (st, "ok " ++ toHex (Sfn.storeLead bs))
+    | none => (st, "bad-op")
+  | ["layout_unpack", name, hx] =>
+    match layoutByName name, parseHex hx with
+    | some (l, _), some bs => (st, "ok " ++ " ".intercalate ((Layout.unpack l bs).map showVal))
+    | _, _ => (st, "bad-op")
+  | ["layout_roundtrip", name, hx] =>
+    match layoutByName name, parseHex hx with
+    | some (l, sz), some bs => (st, "ok " ++ toHex (Layout.pack l sz (Layout.unpack l bs)))
+    | _, _ => (st, "bad-op")
+  | _ => (st, "bad-op")
+
+def defCp (st : DState) (name decs spaces : String) : DState × String :=
+  match parseNatList decs, parseNatList spaces with
+  | some d, some sp =>
+    let da := d.toArray
+    let cp : Sfn.CodePage := { dec := fun b => da.getD b 65533, isSpace := fun c => sp.contains c }
+    ({ st with cps := (name, cp) :: st.cps }, "ok")
+  | _, _ => (st, "bad-op")
+
+def step (st : DState) (line : String) : DState × String :=
+  match (line.trimAscii.toString.splitOn " ").filter (· ≠ "") with
+  | "codec" :: args => codec st args
+  | ["cp", name, decs, spaces] => defCp st name decs spaces
+  | ["ping"] => (st, "ok pong")
+  | [] => (st, "")
+  | _ => (st, "bad-op")
+
+partial def loop (h : IO.FS.Stream) (out : IO.FS.Stream) (st : DState) : IO Unit := do
+  let line ← h.getLine
+  if line.isEmpty then return ()
+  let (st', o) := step st line
+  out.putStrLn o
+  loop h out st'
+
+def main : IO Unit := do
+  let stdin ← IO.getStdin
+  let stdout ← IO.getStdout
+  loop stdin stdout {}
+  stdout.flush
